@@ -53,7 +53,18 @@ def _manual(rng):
             "rb": pools.pct(rng), "lb": pools.pct(rng), "tb": pools.pct(rng)}
 
 
+def _gen_marathon(rng):
+    opl = []
+    for _ in range(rng.randint(60, 120)):
+        p = pools.gen_params(rng, "tiny")
+        p.update(width=rng.randint(1, 2), length=rng.randint(1, 2), seed=rng.randint(0, 5))
+        opl.append({"op": "gen_cli", "params": p, "same_process": True, "solve": False, "entropy": rng.randint(0, 2 ** 32)})
+    return {"cfg": {"klass": "marathon"}, "ops": opl}
+
+
 def gen(rng, tier, ctx):
+    if rng.random() < 0.02:
+        return _gen_marathon(rng)
     klass = rng.choices(["plain", "faulty"], [0.5, 0.5])[0]
     classes = THOROUGH_CLASSES if tier == "thorough" else QUICK_CLASSES
     psets = []
@@ -106,7 +117,10 @@ def gen(rng, tier, ctx):
             opl.append(clean)
         if rng.random() < 0.1:
             opl.append({"op": "restart", "entropy": rng.randint(0, 2 ** 32)})
-    return {"cfg": {"klass": klass}, "ops": opl}
+    cfg = {"klass": klass}
+    if rng.random() < 0.12:
+        cfg["locale"] = rng.choice(["cp1252", "ascii", "latin-1"])      # default text encoding of the machine
+    return {"cfg": cfg, "ops": opl}
 
 
 def readable(spec):
@@ -165,6 +179,9 @@ def execute(spec, w, ctx):
     shapes = []
     written = {}      # rel path -> canon of the op that last wrote it
     w.restart(0)
+    w.fs.encoding = spec.get("cfg", {}).get("locale") or "utf-8"
+    if w.fs.encoding != "utf-8":
+        w.fired("locale-" + w.fs.encoding)
 
     def fail(v):
         k = ctx.known_match(ID, v)
@@ -186,14 +203,14 @@ def execute(spec, w, ctx):
                 continue
             rel, data = next(iter(r["files"].items()))
             rng = random.Random(op.get("seed", 0))
-            text = data.decode("utf-8", "replace")
+            text = data             # bytes: whatever an earlier run or another tool left there
             if op["kind"] == "longer":
-                text = text + "\n# stale tail\n" + text * rng.randint(1, 3)
+                text = text + b"\n# stale tail\n" + text * rng.randint(1, 3)
             elif op["kind"] == "torn":
                 text = text[: rng.randint(0, max(0, len(text) - 1))]
             else:
-                text = "".join(chr(rng.randint(32, 126)) for _ in range(rng.randint(len(text), 2 * len(text) + 10)))
-            w.fs.write_text(rel, text)
+                text = bytes(rng.randint(32, 126) for _ in range(rng.randint(len(text), 2 * len(text) + 10)))
+            w.fs.write_bytes(rel, text)
             w.fired("planted-" + op["kind"])
             events.append([i_op, "plant", rel, op["kind"], len(text)])
             shapes.append("p" + op["kind"][0])
